@@ -770,6 +770,9 @@ class Interp:
                 esz = sz or b.esz or 1
                 if isinstance(i, int) and isinstance(b.off, int):
                     return Ptr(b.base, b.off + i * esz, esz), esz
+                if isinstance(i, Sym) and isinstance(b.off, int):
+                    t_ = i.t if esz == 1 else ("*", i.t, esz, 64)
+                    return Ptr(b.base, Sym(t_ if b.off == 0 else ("+", t_, b.off, 64), 64), esz), esz
                 return Ptr(b.base, U, esz), esz
             return None, sz or 1
         if n.k == "MemberExpr":
@@ -1145,6 +1148,15 @@ class Interp:
             if op in ("+", "-", "*", "/", "%", "<<", ">>", "&", "|", "^"):
                 return Sym((op, ta, tb, _bits_of(t)), _bits_of(t))
             return U
+        if isinstance(a, Ptr) and isinstance(b, Sym) and op == "+" and isinstance(a.off, int):
+            # pointer + opaque index: the offset becomes a term (bytes), so a rule can read which element was selected
+            esz_ = a.esz or 1
+            t_ = b.t if esz_ == 1 else ("*", b.t, esz_, 64)
+            return Ptr(a.base, Sym(t_ if a.off == 0 else ("+", t_, a.off, 64), 64), a.esz)
+        if isinstance(b, Ptr) and isinstance(a, Sym) and op == "+" and isinstance(b.off, int):
+            esz_ = b.esz or 1
+            t_ = a.t if esz_ == 1 else ("*", a.t, esz_, 64)
+            return Ptr(b.base, Sym(t_ if b.off == 0 else ("+", t_, b.off, 64), 64), b.esz)
         if isinstance(a, Ptr) and isinstance(b, int) and op in ("+", "-"):
             if not isinstance(a.off, int):
                 return a
